@@ -402,6 +402,9 @@ func checkC16(c C16Case, r *Rec) *Violation {
 		if !hadEntry {
 			continue // hand-written case without an entry for X: the raise would depend on built-in defaults
 		}
+		if base == int(hash64(src)%8) {
+			foreignActivity(int(hash64(src) % 1000)) // (other cost entries for the same names)
+		}
 		onR, v := compile(base|MaskReorder, raised)
 		if v != nil {
 			return v
